@@ -153,8 +153,8 @@ def signature(case, tr):
 
 def corruptions(tr, rng):
     out = []
-    if tr["raised"] or not tr["preds"] or not tr["fits"]:
-        return out
+    if tr["raised"] or not tr["preds"] or not tr["fits"] or not tr.get("trained"):
+        return out          # the clauses speak about runs that returned cross-validated scores
 
     def mod(fn):
         t = copy.deepcopy(tr)
